@@ -680,7 +680,9 @@ func insertSeparatorsEvery(s string, sep rune, interval int) string {
 	for n > 0 {
 		pos := 0
 		for i := 0; i < interval; i++ {
-			_, w := utf8.DecodeLastRuneInString(s[:end])
+			// Step back one rune at a time: the digits of a custom
+			// zero-digit family need not all have the same width.
+			_, w := utf8.DecodeLastRuneInString(s[:end-pos])
 			pos += w
 		}
 		chunks[n] = s[end-pos : end]
